@@ -1337,9 +1337,18 @@ def m_iter_skip_take(I, st, args, dty, site):
     return [(st, ('it', 'unk', ity, None, None, ('atmost', bound)) if bound is not None else ('it', 'unk', ity, None))]
 
 
+@model('std::iter::once')
+def m_iter_once(I, st, args, dty, site):
+    return [(st, ('it', 'seq', (args[0],), 0, False))]
+
+
 @model('std::iter::Iterator::chain')
 def m_iter_chain(I, st, args, dty, site):
     a, b = as_iter(I, st, args[0]), as_iter(I, st, args[1])
+    if (a is not None and a[0] == 'it' and a[1] == 'unk' and len(a) > 5 and a[5] is not None and a[5][0] == 'bidx' and b is not None and b[0] == 'it' and b[1] == 'seq'
+            and len(b[2]) - b[3] == 1 and b[2][b[3]][0] == 'i' and b[2][b[3]][1] == a[5][1].len):
+        # the char boundaries of the string followed by its length: all positions at which the string can be cut
+        return [(st, ('it', 'unk', ty_of_name('usize'), None, None, ('bidx_end', a[5][1])))]
     if a is not None and b is not None and a[0] == b[0] == 'it' and a[1] == b[1] == 'seq' and a[4] == b[4]:
         return [(st, ('it', 'seq', tuple(a[2][a[3]:]) + tuple(b[2][b[3]:]), 0, a[4]))]
     return [(st, ('it', 'unk', None, None))]
@@ -1414,6 +1423,21 @@ def m_nth(I, st, args, dty, site):
                 I.write_resolved(s2, rp, ('it', 'seq', elems, len(elems), byref))
                 outs.append((s2, none()))
         return outs
+    if it is not None and it[0] == 'it' and it[1] == 'unk' and len(it) > 5 and it[5] is not None and it[5][0] == 'bidx_end':
+        # the n-th cut position: exactly n chars lie before it (None when the string has fewer than n chars)
+        sv = it[5][1]
+        outs = [(st.clone(), none())]
+        s1 = st.clone()
+        lh = D.get_iv(s1, sv.len)[1]
+        v = I.top(s1, ty_of_name('usize'), 'cut', lo=lo, hi=min(4 * hi, lh) if hi != INF else lh)
+        if D.refine_cmp(s1, 'Le', v[1], sv.len):
+            D.PROV[v[1]] = ('boundary', sv.ident)       # a byte offset at which a char of that string starts (or its end)
+            if not hasattr(I, 'char_offset'):
+                I.char_offset = {}
+            I.char_offset[v[1]] = (sv.ident, (lo, hi))
+            I.write_resolved(s1, rp, ('it', 'unk', ty_of_name('usize'), None))
+            outs.append((s1, some(v)))
+        return outs
     if it is not None and it[0] == 'it' and it[1] == 'chars':
         sv = it[2]
         outs = []
@@ -1462,6 +1486,15 @@ def m_iter_adapter(I, st, args, dty, site):
     (its obligations are recorded); the adapter itself is an unknown-length iterator."""
     it = as_iter(I, st, args[0])
     clo = args[1]
+    if (it is not None and it[0] == 'it' and it[1] == 'unk' and len(it) > 5 and it[5] is not None and it[5][0] == 'cidx' and site['callee'].endswith('::map')
+            and clo is not None and clo[0] in ('clo', 'fn')):
+        # char_indices().map(|(i, _)| i): the byte offsets of the char boundaries of the string, ascending
+        s_ = st.clone()
+        ix = I.top(s_, ty_of_name('usize'), 'index')
+        ch = I.top(s_, {'k': 'char'}, 'ch')
+        r_ = I.call_closure(s_, clo, [('t', (ix, ch))], site)
+        if r_ is not None and len(r_) == 1 and r_[0][1][0] == 'i' and r_[0][1][1] == ix[1]:
+            return [(st, ('it', 'unk', ty_of_name('usize'), it[3], None, ('bidx', it[5][1])))]
     if it is not None and it[0] == 's' and it[1] in (RANGE, RANGE_INC) and all(_intarg(x) for x in it[2][:2]):
         # a range with constant bounds and a handful of values is a known sequence
         (l1, h1), (l2, h2) = D.get_iv(st, it[2][0][1]), D.get_iv(st, it[2][1][1])
@@ -2824,7 +2857,7 @@ def is_boundary(st, sv, v):
     if lo == hi and any(len(p.encode()) == lo for p in f['prefixes']):
         return True
     pr = D.PROV.get(v[1])
-    if pr is not None and pr[0] == 'bytes' and pr[1] == sv.ident:
+    if pr is not None and pr[0] in ('bytes', 'boundary') and pr[1] == sv.ident:
         return True
     return False
 
@@ -2872,6 +2905,30 @@ def m_str_index(I, st, args, dty, site):
     if s1 is None or sub is None:
         return []
     return [(s1, sub)]
+
+
+@model('core::str::<impl str>::split_at')
+def m_str_split_at(I, st, args, dty, site):
+    sv = strv_of(I, st, args[0])
+    mid = args[1]
+    ob = site_obl(I, site, 'STDPRE')
+    if sv is None or not _intarg(mid):
+        I.record(ob, False, st, 'str::split_at on an unknown string or index', cause='str::split_at')
+        return [(st, ('t', (('str', I.fresh_str(st, 'head')), ('str', I.fresh_str(st, 'tail')))))]
+    inb = not (D.rel_get_deep(st, mid[1], sv.len) - frozenset('<='))
+    okb = inb and is_boundary(st, sv, mid)
+    I.record(ob, okb, st, None if okb else f'split_at({D.get_iv(st, mid[1])}) of a string of length {D.get_iv(st, sv.len)}: not provably in bounds on a char boundary',
+             cause='str::split_at')
+    s1 = st.clone()
+    if not D.refine_cmp(s1, 'Le', mid[1], sv.len):
+        return []
+    head = sub_str(I, s1, sv, mid[1], keep_first=True)
+    co = getattr(I, 'char_offset', {}).get(mid[1])
+    if co is not None and co[0] == sv.ident and co[1][0] == co[1][1]:
+        head.nchars = (int(co[1][0]), int(co[1][0]))        # exactly that many chars lie before the cut
+    rest_len = I.binop(s1, 'Sub', ('i', sv.len, 'usize'), mid, ty_of_name('usize'), None, None)
+    tail = sub_str(I, s1, sv, rest_len[1] if rest_len[0] == 'i' else D.fresh_vid(s1, 0, D.get_iv(s1, sv.len)[1]), start=mid)
+    return [(s1, ('t', (('str', head), ('str', tail))))]
 
 
 @model('core::str::<impl str>::get')
@@ -3086,7 +3143,8 @@ def m_str_split(I, st, args, dty, site):
     if which == 'bytes':
         return [(st, ('it', 'unk', ty_of_name('u8'), sv.len if sv is not None else None) + ((None, ('bytes', sv)) if sv is not None else ()))]
     if which == 'char_indices':
-        return [(st, ('it', 'unk', {'k': 'tuple', 'elems': [ty_of_name('usize'), {'k': 'char'}]}, sv.len if sv is not None else None))]
+        return [(st, ('it', 'unk', {'k': 'tuple', 'elems': [ty_of_name('usize'), {'k': 'char'}]}, sv.len if sv is not None else None)
+                 + ((None, ('cidx', sv)) if sv is not None else ()))]
     return [(st, ('it', 'strs', sv))]
 
 
